@@ -490,6 +490,49 @@ func c20(e *e3, thorough bool) {
 			}
 		}
 	}
+	// ReadSlices mock: returns the transfers in order, flags surplus and missing calls
+	for nwant := 0; nwant <= 2; nwant++ {
+		for ncall := 0; ncall <= 3; ncall++ {
+			if !e.mine() {
+				continue
+			}
+			e.evals++
+			rec := &recTB{}
+			var want []tr
+			for i := 0; i < nwant; i++ {
+				want = append(want, tr{Message: []byte{byte('m'), byte('0' + i)}, Topic: fmt.Sprintf("t%d", i)})
+			}
+			rs := mqtttest.NewReadSlicesMock(rec, want...)
+			okSeq := true
+			for i := 0; i < ncall; i++ {
+				m, tp, err := rs()
+				if i < nwant {
+					if !bytes.Equal(m, want[i].Message) || string(tp) != want[i].Topic || err != nil {
+						okSeq = false
+					}
+					if len(m) > 0 {
+						m[0] = 'X' // must not alias the expectation
+					}
+				} else if err == nil {
+					okSeq = false
+				}
+			}
+			rec.finish()
+			deviates := ncall != nwant
+			e.distinct[fmt.Sprintf("rsmock/%d/%d", nwant, ncall)] = true
+			if !okSeq {
+				e.violate("C20", "readslices-mock-sequence", "ReadSlices mock with %d transfers, %d calls: wrong returns", nwant, ncall)
+			}
+			if deviates != (len(rec.errors) > 0) {
+				e.violate("C20", "readslices-mock-count", "ReadSlices mock with %d transfers, %d calls: reported %v", nwant, ncall, rec.errors)
+			}
+			for i := range want {
+				if want[i].Message[0] != 'm' {
+					e.violate("C20", "readslices-mock-aliases", "ReadSlices mock handed out its expectation's slice")
+				}
+			}
+		}
+	}
 	// stubs
 	if e.shard == 0 {
 		fix := tr{Message: []byte("abc"), Topic: "t", Err: io.EOF}
